@@ -11,12 +11,18 @@ SPEC = dict(
                 "(b) bounded-exhaustive enumeration of all such sequences up to depth 7+N for N<=3, and (c) workloads of "
                 "DialPeer/CanDial against a real swarm with scripted TCP and QUIC-v1 stub transports whose dial outcomes "
                 "follow a UDP/IPv6 reachability process switched off and on over virtual time; oracles on which addresses "
-                "reach a transport's Dial, which are reported as black-holed, and on State(). Sampling (plus a small "
-                "exhaustive core), not proof."),
-    level_note=("trusted: testing/synctest, the reference detector and oracles of the harness, the stub transports; "
-                "operation-level: the swarm's own goroutines run freely inside the bubble and the history is assembled "
-                "from events that occupy distinct virtual instants (a shared instant is reported as harness trouble)"),
-    technique="deterministic simulation: operation-level, virtual time, scripted transports with a reachability fault process, reference-model oracles",
+                "reach a transport's Dial, which are reported as black-holed, and on State(); and (d) a system stratum: a "
+                "real dialling node (real swarm, TCP and QUIC transports, quic-go) with small UDP/IPv6 counters, optionally "
+                "a read-only swarm sharing them, and 2-4 real target nodes on a simulated network whose UDP / IPv6 paths "
+                "from the dialler are black-holed and healed over virtual time; refusals are judged against a set-valued "
+                "reference window computed from what was seen on the wire. Sampling (plus a small exhaustive core), not proof."),
+    level_note=("trusted: testing/synctest, the overlay rewrite of the instrumented stack, the reference detector and oracles "
+                "of the harness, the stub transports (stratum swarm), simnet/simhost (stratum system); the stub stratum "
+                "assembles its history from events that occupy distinct virtual instants (a shared instant is reported as "
+                "harness trouble); the system stratum is sequential (one DialPeer at a time, losers of the address race are "
+                "given time to finish before State() is sampled)"),
+    technique=("deterministic simulation: lock-level scheduling of the instrumented stack, virtual time, scripted transports "
+               "and a simulated UDP/TCP network with a reachability fault process, reference-model oracles"),
     design_ref="DESIGN.md section 6 (C20)",
     quick_s=30, thorough_s=300,
     rule=("one run = one tape; the first draw picks the stratum. counter: N in 1..6, MinSuccesses in 0..N+1, 1-90 steps "
@@ -27,7 +33,12 @@ SPEC = dict(
           "ranker, sequential or overlapping issue, 1-30 operations (DialPeer of a fresh peer with 1-5 addresses drawn "
           "from {public,private}x{QUIC,TCP}x{IPv4,IPv6} with per-address reachability, latency and timeout-vs-fast-fail "
           "behaviour; CanDial; network switch of UDP and/or IPv6; direct RecordResult bursts in the read-only stratum), "
-          "then a healed tail of N..2N single-address dials per detector. non-trivial = at least one request and one "
+          "then a healed tail of N..2N single-address dials per detector. system: UDP and IPv6 counters with N in 2..6, "
+          "MinSuccesses in 1..N, read-only swarm sharing them in 1/3 of the runs, 2-4 real targets (one public IPv4, one "
+          "public IPv6, others drawn; optional second listening IP) on TCP+QUIC, initial environment and 4-22 operations "
+          "(DialPeer of a target with a drawn subset of its live addresses plus 0-2 dead ones of drawn class; toggle of the "
+          "UDP or the IPv6 black hole; read-only DialPeer / CanDial), drawn settle time, then heal and 2N+2 single-address "
+          "dials per detector. non-trivial = at least one request and one "
           "recorded outcome concerned a configured detector (counter/swarm) or the sweep completed (exhaustive); "
           "distinct = distinct event history (requests, per-address observations, dial outcomes, sampled states)"),
     probes=["blocked-reached", "request-refused-while-blocked", "probe-pass-while-blocked", "cleared-by-success",
@@ -35,13 +46,24 @@ SPEC = dict(
             "healed-after-refusals", "read-only-refused", "read-only-passed-known-good", "address-refused",
             "counter-blocked-reached", "counter-refused", "counter-probe-pass-while-blocked",
             "counter-cleared-by-success", "counter-reblocked-after-clear", "counter-healed-from-blocked",
-            "exhaustive-sweep"],
+            "exhaustive-sweep",
+            "system-blocked-reached", "system-address-refused", "system-request-refused", "system-probe-let-through-while-blocked",
+            "system-cleared-by-success", "system-healed-after-refusals", "system-uncertain-outcome", "system-udp-black-hole-on",
+            "system-read-only-refused", "system-read-only-passed"],
     real=["p2p/net/swarm (Swarm, dial worker, dial sync, limiter, backoff, black hole detector, BlackHoleSuccessCounter)",
-          "p2p/host/peerstore/pstoremem", "p2p/host/eventbus"],
-    stubs=["transport.Transport for TCP and QUIC-v1 (scripted Dial outcome and latency, no listening)",
-           "transport.CapableConn returned by successful stub dials (no streams)"],
+          "p2p/host/peerstore/pstoremem", "p2p/host/eventbus",
+          "system stratum: p2p/transport/tcp dial path, p2p/net/upgrader, noise, yamux, p2p/transport/quic, quicreuse, quic-go v0.59 "
+          "(all instrumented) on dialler, read-only dialler and targets"],
+    stubs=["stratum swarm: transport.Transport for TCP and QUIC-v1 (scripted Dial outcome and latency, no listening) and the "
+           "transport.CapableConn returned by successful stub dials (no streams)",
+           "stratum system: simnet (in-memory TCP and UDP wire; black holes scripted through the UDP filter and SetBlackhole), "
+           "simhost's listen wrapper, simrand (seeded crypto/rand)"],
     assume=["synctest fake clock and quiescence detection (Go 1.25.7)",
             "peer IDs are synthetic multihashes (no keys); the swarm never needs the key in these paths",
             "classification public/private of the generated addresses (1.x, 2600::/16 public; 10.x, 192.168.x, fd00::/16 private) "
-            "is the harness's own and unambiguous"],
+            "is the harness's own and unambiguous",
+            "system stratum: a dial whose QUIC Initial / TCP SYN was seen on the wire was recorded exactly once; one that was not "
+            "seen and lost the race was recorded as a failure or not at all; 200 ms (virtual) after DialPeer returned no dial of "
+            "that request is still running",
+            "the overlay rewrite preserves behaviour (./check overlaytest)"],
 )
